@@ -47,11 +47,15 @@ pub struct EventAutomaton {
     /// refusal) since the address' previous connection ended
     /// value: (answers not yet matched by an Error event, call of the latest answer, answers in that call)
     attempts: BTreeMap<(usize, SocketAddr), (u64, u64, u64)>,
+    /// events handed out by the call in progress: (call, number, connections, terminal events)
+    cur: (u64, u64, std::collections::BTreeSet<Option<SocketAddr>>, u64),
+    max_events_in_one_step: u64,
+    busy_steps: u64,
 }
 
 impl EventAutomaton {
     pub fn new(property: &'static str) -> Self {
-        Self { property, states: BTreeMap::new(), terminal_events: 0, connects: 0, receives: 0, events_after_drop_checked: 0, drops: 0, reconnects: 0, crossing_disconnects: 0, disconnect_calls: BTreeMap::new(), attempts: BTreeMap::new() }
+        Self { property, states: BTreeMap::new(), terminal_events: 0, connects: 0, receives: 0, events_after_drop_checked: 0, drops: 0, reconnects: 0, crossing_disconnects: 0, disconnect_calls: BTreeMap::new(), attempts: BTreeMap::new(), cur: (0, 0, Default::default(), 0), max_events_in_one_step: 0, busy_steps: 0 }
     }
 }
 
@@ -92,6 +96,16 @@ impl Oracle for EventAutomaton {
                 }
             }
             Rec::Event { call, ep, peer_addr, ev, .. } => {
+                if self.cur.0 != *call {
+                    self.cur = (*call, 0, Default::default(), 0);
+                }
+                self.cur.1 += 1;
+                self.cur.2.insert(*peer_addr);
+                self.cur.3 += matches!(ev, AppEvent::Disconnect | AppEvent::Error(_)) as u64;
+                self.max_events_in_one_step = self.max_events_in_one_step.max(self.cur.1);
+                if self.cur.1 == 21 && self.cur.2.len() >= 2 {
+                    self.busy_steps += 1;
+                }
                 let key = (*ep, *peer_addr);
                 let st = *self.states.get(&key).unwrap_or(&St::Idle);
                 if let (Some(a), AppEvent::Disconnect | AppEvent::Error(_), St::Connected) = (peer_addr, ev, st) {
@@ -185,6 +199,9 @@ impl Oracle for EventAutomaton {
         a("server_drop_calls", self.drops);
         a("reconnects_after_terminal_event", self.reconnects);
         a("runs_with_disconnect_calls_on_both_sides", (self.crossing_disconnects > 0) as u64);
+        a("steps_returning_more_than_20_events_of_several_connections", self.busy_steps);
+        let m = out.entry("max_events_returned_by_one_step".to_string()).or_insert(0);
+        *m = (*m).max(self.max_events_in_one_step);
     }
 
     fn nontrivial(&self) -> bool {
@@ -242,6 +259,12 @@ pub struct HandshakeOracle {
     /// per client: (last client step, last server step, largest gap between consecutive steps of
     /// either) during the first 15 s of its current incarnation
     stepping: BTreeMap<usize, (u64, u64, u64)>,
+    /// local clock (ns) of the call in progress, per endpoint
+    cur_local: BTreeMap<usize, u64>,
+    /// per (server, address) with an established connection: the server's local time (ns) when it
+    /// last read a valid data, sync or ack frame from the address (establishment counts)
+    heard: BTreeMap<(usize, SocketAddr), u64>,
+    server_timeouts_checked: u64,
 }
 
 impl HandshakeOracle {
@@ -269,6 +292,9 @@ impl HandshakeOracle {
             syn_versions: BTreeMap::new(),
             last_active: BTreeMap::new(),
             stepping: BTreeMap::new(),
+            cur_local: BTreeMap::new(),
+            heard: BTreeMap::new(),
+            server_timeouts_checked: 0,
         }
     }
 
@@ -295,9 +321,68 @@ impl HandshakeOracle {
     }
 }
 
+impl HandshakeOracle {
+    /// "Stale, duplicated or forged handshake frames never ... reset ... a connection": the only
+    /// thing that lets a server give up an established connection on its own is the configured
+    /// silence. Mirrors when each server last read a valid data, sync or ack frame from an address
+    /// it is connected to; an Error(Timeout) for that address before active_timeout_ms have passed
+    /// on the server's own clock means something else reset the connection.
+    fn on_reset(&mut self, rec: &Rec, cx: &Cx) -> Option<Violation> {
+        let prop = self.property;
+        match rec {
+            Rec::Call { ep: Some(ep), local_ns, op, skipped: false, .. } => {
+                self.cur_local.insert(*ep, *local_ns);
+                match op {
+                    Op::Create { ep } | Op::Destroy { ep } => self.heard.retain(|(e, _), _| e != ep),
+                    Op::ServerDrop { ep, to } => {
+                        self.heard.remove(&(*ep, cx.addrs[*to]));
+                    }
+                    _ => (),
+                }
+            }
+            Rec::Consumed { ep, src_addr, bytes, .. } if matches!(bytes.first(), Some(&FRAME_DATA) | Some(&FRAME_SYNC) | Some(&FRAME_ACK)) => {
+                if let Some(h) = self.heard.get_mut(&(*ep, *src_addr)) {
+                    if uv::Frame::read(bytes).is_some() {
+                        *h = self.cur_local.get(ep).cloned().unwrap_or(*h);
+                    }
+                }
+            }
+            Rec::Event { call, ep, peer_addr: Some(a), ev, local_ns, .. } => {
+                if let EndpointKind::Server { cfg, .. } = &cx.plan.endpoints[*ep].kind {
+                    match ev {
+                        AppEvent::Connect => {
+                            self.heard.insert((*ep, *a), *local_ns);
+                        }
+                        AppEvent::Error(k) => {
+                            if let Some(h) = self.heard.remove(&(*ep, *a)) {
+                                if *k == ERR_TIMEOUT {
+                                    self.server_timeouts_checked += 1;
+                                    let quiet_ns = local_ns.saturating_sub(h);
+                                    if quiet_ns < cfg.active_timeout_ms.saturating_sub(2) * 1_000_000 {
+                                        return viol(prop, "established_connection_reset", format!("server {} gave up its established connection to {} with Error(Timeout) {} ms after it last read a valid data, sync or ack frame from that address (on its own clock); active_timeout_ms is {}: something other than the configured silence reset the connection", ep, a, quiet_ns / 1_000_000, cfg.active_timeout_ms), *call);
+                                    }
+                                }
+                            }
+                        }
+                        AppEvent::Disconnect => {
+                            self.heard.remove(&(*ep, *a));
+                        }
+                        _ => (),
+                    }
+                }
+            }
+            _ => (),
+        }
+        None
+    }
+}
+
 impl Oracle for HandshakeOracle {
     fn on(&mut self, rec: &Rec, cx: &Cx) -> Option<Violation> {
         let prop = self.property;
+        if let Some(v) = self.on_reset(rec, cx) {
+            return Some(v);
+        }
         match rec {
             Rec::Call { op: Op::Create { ep }, skipped: false, .. } => {
                 // new incarnation of a client: its handshake starts over
@@ -543,6 +628,7 @@ impl Oracle for HandshakeOracle {
         a("handshake_config_pairs_checked", self.pairs_checked);
         a("forged_or_replayed_handshake_frames_delivered", self.forged_seen);
         a("refusals_checked", self.refused_checked);
+        a("server_side_timeouts_of_established_connections_checked_against_the_silence", self.server_timeouts_checked);
     }
 
     fn nontrivial(&self) -> bool {
